@@ -4,7 +4,7 @@ import sys, os, json
 VERIF = os.path.dirname(os.path.dirname(os.path.abspath(__file__)))
 sys.path.insert(0, VERIF); sys.path.insert(0, os.path.join(VERIF, "tools"))
 import mutation_sweep as ms
-muts = dict((m["id"], m) for m in json.load(open("/tmp/mut/muts.json")))
+muts = dict((m["id"], m) for m in json.load(open(os.environ.get("MUTS", "/tmp/mut/muts.json"))))
 ids = sys.argv[1].split(",")
 props = sys.argv[2:]
 for i in ids:
